@@ -233,8 +233,8 @@ mod d {
                     _ => None,
                 },
                 &|n| match na {
-                    1 => Some(vec![("label".to_string(), format!("n{}", n.key()))]),
-                    2 if n.key().n() % 2 == 0 => Some(vec![("label".to_string(), format!("n{}", n.key())), ("v".to_string(), format!("{}", n.value()))]),
+                    1 => Some(vec![("label".to_string(), format!("n{}\\l", n.key()))]),
+                    2 if n.key().n() % 2 == 0 => Some(vec![("label".to_string(), format!("n{}\\l", n.key())), ("v".to_string(), format!("{}", n.value()))]),
                     _ => None,
                 },
                 &|_u, _v, e| match ea {
@@ -279,8 +279,8 @@ mod sd {
                     _ => None,
                 },
                 &|n| match na {
-                    1 => Some(vec![("label".to_string(), format!("n{}", n.key()))]),
-                    2 if n.key().n() % 2 == 0 => Some(vec![("label".to_string(), format!("n{}", n.key())), ("v".to_string(), format!("{}", n.value()))]),
+                    1 => Some(vec![("label".to_string(), format!("n{}\\l", n.key()))]),
+                    2 if n.key().n() % 2 == 0 => Some(vec![("label".to_string(), format!("n{}\\l", n.key())), ("v".to_string(), format!("{}", n.value()))]),
                     _ => None,
                 },
                 &|_u, _v, e| match ea {
@@ -350,8 +350,8 @@ mod u {
                     _ => None,
                 },
                 &|n| match na {
-                    1 => Some(vec![("label".to_string(), format!("n{}", n.key()))]),
-                    2 if n.key().n() % 2 == 0 => Some(vec![("label".to_string(), format!("n{}", n.key())), ("v".to_string(), format!("{}", n.value()))]),
+                    1 => Some(vec![("label".to_string(), format!("n{}\\l", n.key()))]),
+                    2 if n.key().n() % 2 == 0 => Some(vec![("label".to_string(), format!("n{}\\l", n.key())), ("v".to_string(), format!("{}", n.value()))]),
                     _ => None,
                 },
                 &|_u, _v, e| match ea {
